@@ -161,6 +161,32 @@ def composed_tie(chk, fulls, viol_specs):
                            "model": got, "replay_cmd": "c10 --spec \"%s\"" % f["spec"]})
             if out["composed_model_mismatches"] > 3:
                 break
+    # vm_compute cross-check of the extraction: a few small rebuilt steps evaluated inside Coq (the edited list is
+    # recovered by the model's own reader from the rebuilt file) and compared there with the implementation's bytes
+    sample = [f for f in fulls if f["res"] == "ok:true" and f["edited"] and len(f["file"]) <= 900 and len(f["rebuilt"]) <= 1200][:5]
+    sample += [f for f in fulls if f["res"] == "ok:false" and f["edited"] and len(f["file"]) <= 900][:0]
+    if sample:
+        e2eupd = os.path.join(VERIF, "coq", "e2eupd")
+        def coq_bytes(h):
+            return "[" + "; ".join(str(int(h[i:i + 2], 16)) for i in range(0, len(h), 2)) + "]"
+        lines = ["From FlacBase Require Import Res Bits.", "From FlacMeta Require Import Bytes Blocks BlockList Utf8.",
+                 "From FlacE2EUpd Require Import RealCodec Extract.", "Open Scope N_scope.",
+                 "Definition same (a b : list N) : bool := (length a =? length b)%nat && forallb (fun p => fst p =? snd p) (combine a b)."]
+        for i, f in enumerate(sample):
+            lines.append("Definition c%d := d_update_file %d %s (match read_blocks utf8_valid_std %s with Ok l => Some l | _ => None end)." % (
+                i, f["start"], coq_bytes(f["file"]), coq_bytes(f["rebuilt"])))
+            lines.append("Eval vm_compute in (match c%d with (o, Some rb, Ok true) => same o %s && same rb %s | _ => false end)." % (
+                i, coq_bytes(f["orig"]), coq_bytes(f["rebuilt"])))
+        vfile = os.path.join(CACHE, "assum", "UpdRealCases.v")
+        os.makedirs(os.path.dirname(vfile), exist_ok=True)
+        open(vfile, "w").write("\n".join(lines) + "\n")
+        q = "-Q ../base FlacBase -Q ../codec FlacCodec -Q ../metadata FlacMeta -Q ../updateio FlacUpdIo -Q ../writers FlacWriters -Q ../readers FlacReaders -Q ../e2e FlacE2E -Q ../e2emeta FlacE2EMeta -Q . FlacE2EUpd"
+        rc, vout = sh("coqc -noglob %s %s" % (q, vfile), cwd=e2eupd, timeout=900)
+        got = re.findall(r"=\s*(true|false)\s*:\s*bool", vout)
+        out["composed_model_vm_compute_cases"] = len(got)
+        if rc != 0 or got != ["true"] * len(sample):
+            chk.violation("tie:composed-model-update-vm", "vm_compute evaluation of the composed model (coq/e2eupd) disagrees with the implementation on a rebuilt step",
+                          {"coq_output": vout[-2500:], "cases": [{"spec": f["spec"], "step": f["step"]} for f in sample], "results": got})
     return out
 
 
